@@ -1466,11 +1466,12 @@ Proof.
     split; [exact (hpost_trans _ _ _ P1 P)|split; [exact Q|lia]].
 Qed.
 
-(* first MiniFAT sector: begin_chain, then the 8-byte header write *)
+(* first MiniFAT sector: begin_chain, then the 8-byte header write; the chain
+   start is remembered only once the header records it *)
 Definition mini_first_branch : M unit :=
   do sid <- begin_chain IFat;
-  modify (fun s => w_minifat_start s sid) ;;
-  header_write HDR_OFF_FIRST_MINIFAT (le_bytes 4 sid ++ le_bytes 4 1).
+  header_write HDR_OFF_FIRST_MINIFAT (le_bytes 4 sid ++ le_bytes 4 1) ;;
+  modify (fun s => w_minifat_start s sid).
 
 Lemma chain_ids_of_single : forall fat sid,
   nthN fat sid = Some END_OF_CHAIN -> sid <> END_OF_CHAIN -> chain_ids_of fat sid = Ok [sid].
@@ -1501,30 +1502,33 @@ Proof.
   unfold begin_chain in H1.
   destruct (allocate_sector_header IFat s s1 sid Hc Hinv Hreg Hh Hfree Hd Hm H1)
     as ((B1 & B2 & B3 & B4 & B5 & B6 & B7 & B8) & Hcell & Hfl).
-  rewrite ReuseProofs.bind_modify in H.
-  set (s2 := w_minifat_start s1 sid) in *.
+  apply ReuseProofs.bind_ok in H. destruct H as ([] & s2 & H2 & H).
+  unfold modify in H. injection H as <-.
   assert (Hsid : sid < lenN (fat s1)) by (eapply nthN_Some_lt; exact Hcell).
   assert (Hne1 : img s1 <> []) by (intro E; rewrite E in B6; cbn [lenN] in B6; lia).
   assert (Hh512 : HEADER_LEN <= lenN (hd [] (img s1))).
   { unfold HEADER_LEN. unfold byte in *. rewrite B7.
     destruct (ReuseProofs.slen_cases s) as [E|E]; rewrite E in Hh; lia. }
-  destruct (header_write_bytes s2 HDR_OFF_FIRST_MINIFAT (le_bytes 4 sid ++ le_bytes 4 1) s'
+  destruct (header_write_bytes s1 HDR_OFF_FIRST_MINIFAT (le_bytes 4 sid ++ le_bytes 4 1) s2
               (header_of s1) (h_set_num_minifat (h_set_first_minifat (header_of s1) sid) 1)
               B1 Hne1 Hh512
               ltac:(rewrite CodecProofs.lenN_app, !CodecProofs.lenN_le_bytes4;
                     unfold HDR_OFF_FIRST_MINIFAT, HEADER_LEN; lia)
-              H (header_splice_minifat_pair _ _ _)) as (Hb & Hm2 & _ & _).
-  assert (Efs : fat s' = fat s1) by (rewrite Hm2; reflexivity).
-  assert (Ems : minifat_start s' = sid) by (rewrite Hm2; reflexivity).
+              H2 (header_splice_minifat_pair _ _ _)) as (Hb & Hm2 & _ & _).
+  set (s' := w_minifat_start s2 sid).
+  assert (Efs : fat s' = fat s1) by (cbn [s' fat w_minifat_start]; rewrite Hm2; reflexivity).
+  assert (Ems : minifat_start s' = sid) by reflexivity.
   (* sid is a regular sector id *)
   assert (Hsidreg : sid <> END_OF_CHAIN).
   { destruct Hinv as [_ Hlen _ _]. markers. lia. }
   assert (Hcount : chain_count (fat s1) sid = 1).
   { unfold chain_count. rewrite (chain_ids_of_single _ _ Hcell Hsidreg). reflexivity. }
   split; [|split; [rewrite Ems; exact Hsidreg|rewrite Efs, Ems; exact Hcount]].
-  unfold HeaderCoherent. unfold HdrBytes in Hb. rewrite Hb, Hm2, header_of_w_img.
+  unfold HeaderCoherent. unfold HdrBytes in Hb.
+  change (img s') with (img s2). rewrite Hb.
+  unfold s'. rewrite Hm2.
   unfold h_set_num_minifat, h_set_first_minifat, header_of. hdr_fields.
-  cbn [s2 ver fat dir_start difat difat_ids minifat_start w_minifat_start].
+  cbn [ver fat dir_start difat difat_ids minifat_start w_minifat_start w_img].
   rewrite Hcount. reflexivity.
 Qed.
 
@@ -1624,7 +1628,7 @@ Lemma allocate_mini_sector_unfold : forall value s,
            if lenN (c_ids c) * (slen s / 4) <=? lenN (minifat s)
            then mini_extend_branch (minifat_start s) else ret tt) ;;
         do s <- get;
-        set_minifat (lenN (minifat s)) value ;; append_mini_sector ;; ret (lenN (minifat s))
+        append_mini_sector ;; set_minifat (lenN (minifat s)) value ;; ret (lenN (minifat s))
       end) s.
 Proof. reflexivity. Qed.
 
